@@ -15,7 +15,7 @@ import (
 
 func init() {
 	seqChecks["c11"] = &seqCheck{run: runC11, replay: replayC11,
-		rule: "every well-formed history of <=4 (5 thorough) operations, grouped into read/write transactions on ids {'',a,b}, over {Create v1, Create v2, Create wrong type, Update, Delete, Value, Exists} with a BeforeChange veto on or off, for mockstore and badgerstore (untyped / typed, with / without prefix, with and without any registered listener); reference = Go map + expected callback list; distinct = distinct (store kind, history, result vector)"}
+		rule: "every well-formed history of <=4 (5 thorough) operations, grouped into read/write transactions on ids {'',a,b}, over {Create v1, Create v2, Create wrong type, Update, Delete, Value, Exists} with a BeforeChange veto on or off, for mockstore and badgerstore (untyped / typed, with / without prefix, with and without any registered listener, and a mockstore that generates the id 'b' for a Create on the empty id); reference = Go map + expected callback list; distinct = distinct (store kind, history, result vector)"}
 }
 
 type c11Rec struct {
@@ -30,6 +30,8 @@ type c11Kind struct {
 	mock   bool
 	// nolisten: no change listener is registered at all (results and final content only)
 	nolisten bool
+	// newid: the (mock) store generates ids: a Create on the empty id is a Create on the id "b"
+	newid bool
 }
 
 var c11Kinds = []c11Kind{
@@ -40,6 +42,7 @@ var c11Kinds = []c11Kind{
 	{name: "badger-typed-prefix", typed: true, prefix: "ba"},
 	{name: "badger-untyped-nolisten", nolisten: true},
 	{name: "mock-nolisten", mock: true, nolisten: true},
+	{name: "mock-newid", mock: true, newid: true},
 }
 
 func (k c11Kind) val(i int) interface{} {
@@ -124,6 +127,9 @@ func c11Run(k c11Kind, db *badger.DB, veto bool, h []c11Txn, emit func(desc stri
 	}
 	if k.mock {
 		ms := mockstore.NewStore()
+		if k.newid {
+			ms.NewID = func() string { return "b" }
+		}
 		if !k.nolisten {
 			ms.OnChange(onChange)
 		}
@@ -199,13 +205,18 @@ func c11Run(k c11Kind, db *badger.DB, veto bool, h []c11Txn, emit func(desc stri
 				}
 				n0 := len(cbs)
 				err := wt.Create(v)
+				eid := t.ID
+				if t.ID == "" && k.newid {
+					eid = "b"
+					_, exists = model[eid]
+				}
 				switch {
 				case op == "createWrong" && !k.mock:
 					if err == nil {
 						bad(step, "Create with a value of the wrong type succeeded")
 					}
 					sig = append(sig, "type")
-				case t.ID == "":
+				case eid == "":
 					if err == nil {
 						bad(step, "Create on the empty id succeeded although the store does not generate ids")
 						// keep the model in line with the store to avoid follow-up noise
@@ -227,8 +238,8 @@ func c11Run(k c11Kind, db *badger.DB, veto bool, h []c11Txn, emit func(desc stri
 					if err != nil {
 						bad(step, "Create failed: %v", err)
 					} else {
-						model[t.ID] = v
-						wantCBs = append(wantCBs, c11CB{t.ID, nil, v})
+						model[eid] = v
+						wantCBs = append(wantCBs, c11CB{eid, nil, v})
 					}
 					sig = append(sig, "ok")
 				}
